@@ -9,7 +9,7 @@
 From Coq Require Import QArith List Bool ZArith.
 From Cobra.LP Require Import Defs Cert Fba.
 From Cobra.Optimize Require Import Model.
-From Cobra.Secondary Require Import Aux Pfba.
+From Cobra.Secondary Require Import Aux Pfba AuxLp Moma.
 From Cobra.Gen Require Import OptTables.
 Import ListNotations.
 Open Scope Q_scope.
@@ -121,11 +121,69 @@ Definition pfba_checks (c : pfbacase) : list nat :=
   | ONone => [9%nat]
   end.
 
+(* ================================ linear MOMA ================================ *)
+Inductive sobs := SRaise (e : exn) | SOther | SSol (st : status) (objv : Q) (fluxes : vec).
+
+Definition sol_agrees (s : solution) (o : sobs) : bool :=
+  match o with
+  | SSol st ov fl =>
+      status_eqb (so_status s) st &&
+      (if status_eqb st Optimal then close tiny (so_obj s) ov && veq tiny (so_flux s) fl else true)
+  | _ => false
+  end.
+
+Record momacase := mkMoma {
+  mo_m : fbamodel;                  (* the model in the state moma() was called on *)
+  mo_ref : vec;                     (* reference fluxes used (given, or the pfba computed inside add_moma) *)
+  mo_default : option oracle;       (* solution=None: certificate of the pFBA optimum (fraction 1) of the model *)
+  mo_spec : oracle;                 (* certificate for moma_lp m ref *)
+  mo_lp : option lp;                (* LP read back from GLPK after add_moma *)
+  mo_sr : sresult;                  (* solver after model.optimize() *)
+  mo_w : Q;                         (* primal of moma_old_objective *)
+  mo_out : sobs }.
+
+Definition moma_checks (c : momacase) : list nat :=
+  let m := mo_m c in
+  let n := length (rxns m) in
+  let p := moma_lp m (mo_ref c) in
+  if negb (valid_model_b m) then [9%nat] else
+  code1 (match mo_lp c with Some l => lp_eqb p l | None => false end && sol_agrees (moma (mo_sr c)) (mo_out c)) ++
+  match mo_spec c with
+  | OOpt x y =>
+      if negb (check_opt p x y) then [9%nat] else
+      match mo_out c with
+      | SSol st ov fl =>
+          (if status_eqb st Optimal then [] else [2%nat]) ++
+          (if close tol ov (- value p x) then [] else [3%nat]) ++
+          (if feasible_tol (net_lp m) tol fl then [] else [4%nat]) ++
+          (if close tol (dist n fl (mo_ref c)) ov then [] else [6%nat]) ++
+          (if close tol (mo_w c) (dot (raw_obj m) fl) then [] else [10%nat])
+      | _ => [2%nat]
+      end
+  | OInf y =>
+      if negb (check_infeasible p y) then [9%nat] else
+      match mo_out c with SSol Infeasible _ _ => [] | _ => [2%nat] end
+  | _ => [9%nat]
+  end ++
+  match mo_default c with
+  | None => []
+  | Some (OOpt fx fy) =>
+      (* the default reference must be a pFBA solution of the model: feasible, optimal objective, least total flux *)
+      match mo_spec c with
+      | OOpt _ _ =>
+        if negb (check_opt (net_lp m) fx fy) then [9%nat] else
+        let b := dot (raw_obj m) fx in
+        (if feasible_tol (net_lp m) tol (mo_ref c) && frac_tol m b (mo_ref c) then [] else [8%nat])
+      | _ => []
+      end
+  | Some _ => []
+  end.
+
 (* ================================ all of C09 ================================ *)
-Inductive c09case := CPfba (c : pfbacase).
+Inductive c09case := CPfba (c : pfbacase) | CMoma (c : momacase).
 
 Definition checks (c : c09case) : list nat :=
-  match c with CPfba p => pfba_checks p end.
+  match c with CPfba p => pfba_checks p | CMoma p => moma_checks p end.
 
 Definition failing (cases : list (Z * c09case)) : list (Z * list (nat * nat)) :=
   filter (fun r => match snd r with [] => false | _ => true end)
